@@ -99,6 +99,17 @@ CHECKS = {
         "components": {"real": REAL, "stub": ["the wire between contributors and coordinator (harness transport over the real serialised contributions)", "entropy source of the contributors (keyed PRF; zero and replayed-block faults)"]},
         "assumptions": ["a byzantine contributor is modelled by recombination of honest elements (own message, other ceremony), not by fresh algebra", "domain sizes 2..64"],
     },
+    "C05": {
+        "engine": "c05",
+        "level": "fault_enumeration",
+        "rule": "one evaluation = one Solve of a one-operation circuit under a plan of faulted hint answers (perturbed / swapped / misdirected / replayed / compensated / failed), judged by the operation's documented relation on the probed outputs; "
+                "over the 47-element field every input x every single-output substitution of every hint invocation is enumerated for the single-input operations (exhaustive cells); a case = (operation, field, builder, inputs, fault tape)",
+        "quick": {"runs": 1600, "budget_s": 200, "selftest_runs": 4, "params": {"faults": 24}},
+        "thorough": {"runs": 60000, "budget_s": 2400, "selftest_runs": 6, "params": {"faults": 48}},
+        "expect_probes": ["faulty_answer_rejected", "faulty_answer_accepted", "field:tinyfield", "exhaustive_single_output_substitution", "perturb-output", "misdirected", "compensated-shift", "modular-alias", "hint-error"],
+        "components": {"real": REAL + ["hint wrapper hook (constraint/verifhook, -tags verif)"], "stub": ["hint answers under fault (byzantine solver oracle)", "commitment challenge in solver-only runs (hash of the committed values)"]},
+        "assumptions": ["only the dishonest-prover clause is decided: wires no hint controls are determined by the constraints and are not substituted", "the fault-free equality with the specification is the baseline of the same runs, not a claim over all programs"],
+    },
     "C06": {
         "engine": "c06",
         "level": "exploration",
